@@ -13,7 +13,7 @@ def hidden_state_calls(facts):
     n = 0
     for root, insts in facts.inst_roots.items():
         for ins in insts:
-            for bb, c in ins['calls']:
+            for bb, c in ins['allcalls']:
                 n += 1
                 for pth in (c.get('path'), c.get('rpath')):
                     q = norm_path(pth) if pth else ''
